@@ -178,6 +178,7 @@ type realScript struct {
 	Ignored []string   `json:"ignored"`
 	Cycles  [][]editOp `json:"cycles"`
 	Real    bool       `json:"real"`
+	XDev    bool       `json:"xdev"` // roots on another device than the data directory (staging crosses devices)
 	CapBeta int        `json:"capBeta"` // >0: beta's maximum entry count = entries on beta after the first edits + CapBeta - 1
 }
 
@@ -317,7 +318,7 @@ func runRealCase(m *synchronization.Manager, dataDir, base string, cid int, sc r
 	realReg[dir] = &realCase{cs: cs, ignored: sc.Ignored}
 	realMu.Unlock()
 	defer func() { realMu.Lock(); delete(realReg, dir); realMu.Unlock() }()
-	in := map[string]any{"mode": sc.Mode, "presA": true, "presB": true, "real": true, "ignored": sc.Ignored, "cycles": sc.Cycles, "capBeta": sc.CapBeta}
+	in := map[string]any{"mode": sc.Mode, "presA": true, "presB": true, "real": true, "ignored": sc.Ignored, "cycles": sc.Cycles, "capBeta": sc.CapBeta, "xdev": sc.XDev}
 	var ignSeqs []any
 	for _, ig := range sc.Ignored {
 		ignSeqs = append(ignSeqs, vtree.Path(ig))
